@@ -27,6 +27,7 @@ def main():
     ap.add_argument("-p", default="")
     ap.add_argument("-w", action="store_true", help="rewrite MUTANTS.md")
     ap.add_argument("--tests", action="store_true", help="also run the package tests of the edited package")
+    ap.add_argument("--patch", action="append", default=[], help="patch applied to the scratch worktree before mutating (e.g. a repair not yet committed)")
     args = ap.parse_args()
 
     muts = []
@@ -48,6 +49,12 @@ def main():
     shutil.copy(os.path.join(HERE, "known_findings.json"), root)
     shutil.copy(os.path.join(HERE, "properties.jsonl"), root)
     sh("git -C /repo worktree add --detach %s HEAD" % wt, check=True)
+    for pt in args.patch:
+        r = sh("git apply %s" % pt, cwd=wt)
+        if r.returncode != 0:
+            print("patch failed:", pt, r.stdout)
+            sh("git -C /repo worktree remove --force %s" % wt)
+            return 2
     results = []
     try:
         for m in muts:
